@@ -89,7 +89,7 @@ func LoadLocation(name string) (*Location, error) { return time.LoadLocation(nam
 //
 //go:norace
 func Now() Time {
-	if sched.Active() {
+	if sched.Mine() {
 		return sched.Epoch.Add(Duration(sched.NowNS()))
 	}
 	return time.Now()
@@ -106,7 +106,7 @@ type Timer struct {
 }
 
 func NewTimer(d Duration) *Timer {
-	if !sched.Active() {
+	if !sched.Mine() {
 		rt := time.NewTimer(d)
 		return &Timer{C: rt.C, real: rt}
 	}
@@ -131,7 +131,7 @@ func (t *Timer) Reset(d Duration) bool {
 func After(d Duration) <-chan Time { return NewTimer(d).C }
 
 func AfterFunc(d Duration, f func()) *Timer {
-	if !sched.Active() {
+	if !sched.Mine() {
 		rt := time.AfterFunc(d, f)
 		return &Timer{real: rt}
 	}
@@ -141,7 +141,7 @@ func AfterFunc(d Duration, f func()) *Timer {
 
 // Sleep blocks until a virtual timer of that duration has been fired.
 func Sleep(d Duration) {
-	if !sched.Active() {
+	if !sched.Mine() {
 		time.Sleep(d)
 		return
 	}
@@ -157,7 +157,7 @@ type Ticker struct {
 }
 
 func NewTicker(d Duration) *Ticker {
-	if !sched.Active() {
+	if !sched.Mine() {
 		rt := time.NewTicker(d)
 		return &Ticker{C: rt.C, real: rt}
 	}
